@@ -16,6 +16,7 @@
 
 mod facts;
 mod fnlevel;
+mod sched;
 
 use std::{fs, path::Path};
 
@@ -56,6 +57,21 @@ fn main() {
                     "{{\"item\":\"{}\",\"file\":\"{}\",\"ok\":false,\"error\":{:?}}}",
                     item.module, item.file, e
                 ));
+            }
+        }
+    }
+
+    // ---- C10: the schedule interpreter (its own translation scheme, see sched.rs) -------------
+    {
+        let target = out.join("SchedFns.v");
+        match sched::generate(repo) {
+            Ok(text) => {
+                write_if_changed(&target, &text);
+                report.push("{\"item\":\"SchedFns\",\"file\":\"src/lib.rs + egglog-reports/src/lib.rs\",\"ok\":true}".to_string());
+            }
+            Err(e) => {
+                write_if_changed(&target, &format!("(* GENERATED: translation of the schedule interpreter FAILED: {} *)\n", e.replace("*)", "* )")));
+                report.push(format!("{{\"item\":\"SchedFns\",\"file\":\"src/lib.rs + egglog-reports/src/lib.rs\",\"ok\":false,\"error\":{:?}}}", e));
             }
         }
     }
